@@ -2,7 +2,14 @@
 emit C++ translation units over the real unifex stream API (harness/k2s.hpp) and the same cases as
 terms of the SCalc model (coq/Calc/StreamDefs.v, ocaml handler `scalc`), run both, compare the
 traces event by event, and evaluate the property itself (direct monitors) on the implementation's
-trace."""
+trace.
+
+The adapt_stream family (adapt_stream / next_adapt_stream / cleanup_adapt_stream with the sender adaptors of
+SCalc.sadapt: identity, then(f), via / typed_via / on over the harness scheduler k2s::hsched{sid}, finally +
+schedule_after; via_stream / typed_via_stream / on_stream / delay themselves) is generated directly on the
+source or directly under the consumer (nodes "na" "ca" "ad1" "ad2" "via" "tvia" "on" "delay"), plus the
+corpus cases 8.. with scripts for stop in the middle, pre-stopped and armed root tokens.  k2s::hsched is an
+inline, stop-insensitive context that logs `hop <sid> <d>`; the model prints the same event (THop)."""
 import hashlib, os, random, re
 import vlib
 
@@ -18,7 +25,15 @@ KEY_F9 = "k2s/stop_immediately/next_start_uses_destroyed_op_after_inline_stop"
 KEY_F14 = "k2s/stop_immediately/cleanup_set_error_forwards_reference_into_destroyed_cleanup_op"
 KEY_F15 = "k2s/type_erase/receiver_wrapper_reads_members_after_destroying_its_op"
 
-UN = ["tr", "fi", "tu", "si", "te"]
+UN = ["tr", "fi", "tu", "si", "te", "na", "ca", "ad1", "ad2", "via", "tvia", "on", "delay"]
+ADK = ["na", "ca", "ad1", "ad2", "via", "tvia", "on", "delay"]      # the adapt_stream family
+def inner(s):
+    """the stream an adaptor node is applied to (None for sources)"""
+    k = s[0]
+    if k in ("tr", "fi", "na", "ca", "ad1", "via", "tvia", "on"): return s[2]
+    if k in ("tu", "si", "te"): return s[1]
+    if k in ("ad2", "delay"): return s[3]
+    return None
 
 # ------------------------------------------------------------------------------------------ generation
 class Gen:
@@ -58,8 +73,31 @@ class Gen:
         if c < 0.90: return ("single", r.randint(0, 12))
         return ("never",)
 
+    def sadapt(self, nextpos, s):
+        """a sender adaptor of the table SCalc.sadapt; then(f) only where a value is carried"""
+        r = self.rng
+        k = r.choice(["id", "then", "avia", "atvia", "aon", "adelay"])
+        if k == "then" and (not nextpos or valueless(s)): k = "avia"
+        sid = r.randint(5, 9)
+        if k == "id": return ("id",)
+        if k == "then": return ("then", self.fn())
+        if k == "adelay": return ("adelay", sid, r.randint(1, 9))
+        return (k, sid)
+
+    def adapt(self, s):
+        r = self.rng
+        k = r.choice(ADK)
+        sid = r.randint(5, 9)
+        if k == "na": return ("na", self.sadapt(True, s), s)
+        if k == "ca": return ("ca", self.sadapt(False, s), s)
+        if k == "ad1": return ("ad1", self.sadapt(False, s), s)
+        if k == "ad2": return ("ad2", self.sadapt(True, s), self.sadapt(False, s), s)
+        if k == "delay": return ("delay", sid, r.randint(1, 9), s)
+        return (k, sid, s)
+
     def stream(self, depth):
         s = self.source()
+        if self.rng.random() < 0.22: s = self.adapt(s)      # the adapt_stream family: directly on the source ...
         under_tu_chain = False     # built bottom-up: remember whether a `te` is reachable through tr/fi only
         te_reach = False
         for _ in range(depth):
@@ -72,7 +110,7 @@ class Gen:
                 k = "tr"           # stop_immediately's receivers forward no queries; type_erase needs get_scheduler
             if k == "tr" and valueless(s):
                 k = "fi"           # then() over never's empty value_types does not compile
-            if k == "fi" and s[0] == "single":
+            if k == "fi" and through_adapt(s)[0] == "single":
                 k = "tr"           # filter_stream's noexcept-specifier connects single's next sender with an lvalue
             if k == "tr": s = ("tr", self.fn(), s)
             elif k == "fi": s = ("fi", self.pred(), s)
@@ -83,6 +121,7 @@ class Gen:
             if k == "te": te_reach = True
             elif k in ("tr", "fi"): pass
             else: te_reach = False
+        if self.rng.random() < 0.22 and "te" not in kinds(s): s = self.adapt(s)   # ... or directly under the consumer
         return s
 
     def case(self, depth):
@@ -94,19 +133,25 @@ class Gen:
         return (c, s)
 
 
+def through_adapt(s):
+    """the stream beneath the adapt_stream-family nodes at the top of s"""
+    while s[0] in ADK: s = inner(s)
+    return s
+
+
 def valueless(s):
     """the stream's next sender has never_stream's empty value_types"""
     if s[0] == "never": return True
     if s[0] == "fi": return valueless(s[2])
     if s[0] in ("tu", "si"): return valueless(s[1])
+    if s[0] in ADK: return valueless(inner(s))
     return False
 
 
 def kinds(s, acc=None):
     acc = [] if acc is None else acc
     acc.append(s[0])
-    if s[0] in ("tr", "fi"): kinds(s[2], acc)
-    elif s[0] in ("tu", "si", "te"): kinds(s[1], acc)
+    if inner(s) is not None: kinds(inner(s), acc)
     return acc
 
 
@@ -118,6 +163,7 @@ def src_ids(s, acc=None):
     elif s[0] == "tu":
         acc.append((s[2], True)); src_ids(s[1], acc)
     elif s[0] in ("si", "te"): src_ids(s[1], acc)
+    elif s[0] in ADK: src_ids(inner(s), acc)
     return acc
 
 
@@ -131,7 +177,23 @@ def to_model(s):
     if k == "never": return "(never)"
     if k in ("tr", "fi"): return "(%s %s %s)" % (k, m_fn(s[1]), to_model(s[2]))
     if k == "tu": return "(tu %s %d %d)" % (to_model(s[1]), s[2], s[3])
+    if k in ("na", "ca", "ad1"): return "(%s %s %s)" % (k, m_ad(s[1]), to_model(s[2]))
+    if k == "ad2": return "(ad2 %s %s %s)" % (m_ad(s[1]), m_ad(s[2]), to_model(s[3]))
+    if k in ("via", "tvia", "on"): return "(%s %d %s)" % (k, s[1], to_model(s[2]))
+    if k == "delay": return "(delay %d %d %s)" % (s[1], s[2], to_model(s[3]))
     return "(%s %s)" % (k, to_model(s[1]))
+
+def m_ad(a):
+    if a[0] == "then": return "(then %s)" % m_fn(a[1])
+    return "(%s)" % " ".join(map(str, a))
+
+def cpp_ad(a):
+    if a[0] == "id": return "k2s::ad_id{}"
+    if a[0] == "then": return "k2s::ad_then{%s}" % cpp_fn(a[1])
+    if a[0] == "avia": return "k2s::ad_via{k2s::hsched{%d}}" % a[1]
+    if a[0] == "atvia": return "k2s::ad_tvia{k2s::hsched{%d}}" % a[1]
+    if a[0] == "aon": return "k2s::ad_on{k2s::hsched{%d}}" % a[1]
+    return "k2s::ad_delay{k2s::hsched{%d}, %d}" % (a[1], a[2])
 
 def cons_model(c):
     if c[0] == "reduce": return "(reduce %d %s)" % (c[1], m_fn(c[2]))
@@ -169,6 +231,14 @@ def to_cpp(s):
     if k == "tu": return "unifex::take_until(%s, k2s::src{%d, %s})" % (to_cpp(s[1]), s[2], "true" if s[3] else "false")
     if k == "si": return "unifex::stop_immediately<k2s::elem_t>(%s)" % to_cpp(s[1])
     if k == "te": return "unifex::type_erase<k2s::elem_t>(%s)" % to_cpp(s[1])
+    if k == "na": return "unifex::next_adapt_stream(%s, %s)" % (to_cpp(s[2]), cpp_ad(s[1]))
+    if k == "ca": return "unifex::cleanup_adapt_stream(%s, %s)" % (to_cpp(s[2]), cpp_ad(s[1]))
+    if k == "ad1": return "unifex::adapt_stream(%s, %s)" % (to_cpp(s[2]), cpp_ad(s[1]))
+    if k == "ad2": return "unifex::adapt_stream(%s, %s, %s)" % (to_cpp(s[3]), cpp_ad(s[1]), cpp_ad(s[2]))
+    if k == "via": return "unifex::via_stream(k2s::hsched{%d}, %s)" % (s[1], to_cpp(s[2]))
+    if k == "tvia": return "k2s::tvia_stream(k2s::hsched{%d}, %s)" % (s[1], to_cpp(s[2]))
+    if k == "on": return "unifex::on_stream(k2s::hsched{%d}, %s)" % (s[1], to_cpp(s[2]))
+    if k == "delay": return "unifex::delay(%s, k2s::hsched{%d}, std::chrono::milliseconds(%d))" % (to_cpp(s[3]), s[1], s[2])
     raise ValueError(k)
 
 def case_cpp(case):
@@ -318,6 +388,19 @@ CORPUS = [
     (("reduce", 0, ("sum",)), ("te", ("si", ("tu", ("src", 0, 1), 1, 1)))),
     (("reduce", 1, ("sum",)), ("fi", ("even",), ("tr", ("mul", 3), ("range", 0, 7)))),
     (("reduce", 0, ("sum",)), ("tu", ("si", ("src", 0, 0)), 1, 1)),
+    # the adapt_stream family (indices 8..)
+    (("reduce", 0, ("sum",)), ("via", 7, ("src", 0, 1))),
+    (("reduce", 0, ("sum",)), ("on", 8, ("src", 0, 0))),
+    (("reduce", 0, ("horner",)), ("tvia", 6, ("tr", ("add", 1), ("src", 0, 1)))),
+    (("reduce", 0, ("sum",)), ("delay", 5, 3, ("src", 0, 0))),
+    (("reduce", 0, ("sum",)), ("na", ("then", ("mul", 2)), ("src", 0, 1))),
+    (("foreach", ("add", 1)), ("ca", ("avia", 7), ("src", 0, 0))),
+    (("reduce", 0, ("sum",)), ("ad2", ("then", ("throwif", 3, 61)), ("aon", 9), ("src", 0, 1))),
+    (("reduce", 0, ("sum",)), ("ad1", ("id",), ("range", 0, 4))),
+    (("reduce", 0, ("sum",)), ("on", 8, ("via", 7, ("na", ("then", ("mul", 2)), ("src", 0, 1))))),
+    (("reduce", 0, ("sum",)), ("tu", ("via", 7, ("src", 0, 1)), 1, 1)),
+    (("reduce", 0, ("sum",)), ("si", ("on", 8, ("src", 0, 0)))),
+    (("reduce", 1, ("sum",)), ("fi", ("even",), ("via", 6, ("range", 0, 6)))),
 ]
 # move-sensitive elements: every value-carrying adaptor followed by a by-value consumer
 MV_CORPUS = [
@@ -336,6 +419,18 @@ CORPUS_SCRIPTS = {
     4: [(2, ""), (1, "")],
     5: [(2, "N0:d C0:d C1:d"), (0, "N0:v1 S C0:d C1:d")],
     7: [(2, "N0:d N1:d C0:d C1:d"), (0, "N0:v2 N1:v0 N0:v5 C0:d C1:d")],
+    8: [(0, "N0:v1 N0:v2 N0:d C0:d"), (0, "N0:v1 S C0:d"), (1, "C0:d"), (2, "N0:d C0:d"), (0, "N0:e31 C0:e41")],
+    9: [(0, "N0:v1 N0:v2 N0:d C0:d"), (0, "N0:v1 S N0:d C0:d"), (1, "N0:d C0:d"), (2, "N0:d C0:d"), (0, "N0:v4 A N0:v5 N0:d C0:e42")],
+    10: [(0, "N0:v1 N0:d C0:d"), (0, "S C0:d"), (1, "C0:d")],
+    11: [(0, "N0:v1 N0:v2 N0:d C0:d"), (0, "N0:v1 S N0:d C0:d"), (1, "N0:d C0:d")],
+    12: [(0, "N0:v1 N0:v2 N0:d C0:d"), (0, "N0:v1 S C0:d"), (1, "C0:d")],
+    13: [(0, "N0:v1 N0:d C0:d"), (0, "N0:v1 S N0:d C0:e43"), (1, "N0:d C0:d")],
+    14: [(0, "N0:v1 N0:v3 C0:d"), (0, "N0:v1 S C0:d"), (1, "C0:d")],
+    15: [(0, ""), (1, ""), (2, "")],
+    16: [(0, "N0:v3 S C0:d"), (1, "C0:d"), (2, "C0:d")],
+    17: [(0, "N0:v1 N1:v0 C0:d C1:d"), (0, "N0:v1 S C0:d C1:d")],
+    18: [(0, "N0:v1 S N0:v2 C0:d"), (2, "N0:v1 C0:d")],
+    19: [(0, ""), (1, "")],
 }
 
 
